@@ -607,7 +607,9 @@ static std::string gen_c18(uint64_t seed, uint64_t idx, bool thorough) {
     else { unit = 200000; warm = r.range(0, 20) * unit + 1000000; fault = r.range(4, 80) * unit; quiet = 40 * unit; tail = 150000000ULL; }
     // "long silence" flavour: the fault phase stretches over 11-25 s, so that hostile datagrams are seconds apart (per-stream tables,
     // time-outs and "last seen" bookkeeping age in between)
-    if (!fault_free && (scen == "can" || scen == "cvf" || scen == "aaf") && r.chance(0.1)) fault += r.range(11, 25) * 1000000000ULL;
+    if (!fault_free && (scen == "can" || scen == "cvf" || scen == "aaf") && r.chance(0.1)) fault += (r.chance(0.8) ? r.range(11, 25) : r.range(61, 130)) * 1000000000ULL;
+    // ... and for the listeners whose talkers send once a second it covers minutes (rate limiters, "once a minute" bookkeeping)
+    if (!fault_free && (scen == "hello" || scen == "vss") && r.chance(0.08)) fault += r.range(62, 150) * 1000000000ULL;
     // "flood" flavour: one datagram is sent thousands of times at line rate (sequence number and timestamp advancing)
     uint64_t flood_n = (!fault_free && r.chance(0.04)) ? r.range(2000, 20000) : 0, flood_dt = r.range(20000, 60000);
     if (flood_n && (scen == "crfL" || scen == "crfT") && r.chance(0.7)) flood_n = r.range(17000, 24000);  // more than twice the nominal 8000 packets per second, for more than a second
